@@ -545,7 +545,7 @@ fn sc_mutants(pairs: bool) -> impl Fn(&mut Ctx) + Sync {
         if pairs && seed.len() > 64 {
             return;
         }
-        let fam = ctx.choose_free(if pairs { 1 } else { 6 });
+        let fam = ctx.choose_free(if pairs { 1 } else { 7 });
         let mut m: Vec<u8> = seed.clone();
         let family: &str;
         match fam {
@@ -618,6 +618,55 @@ fn sc_mutants(pairs: bool) -> impl Fn(&mut Ctx) + Sync {
                 }
                 m = out;
                 ctx.hit("indefinite-form");
+            }
+            6 => {
+                family = "emptied-or-shortened-node";
+                // well-formed edits of the tree: any container or string emptied, or its last
+                // entry removed (count adjusted) - shapes such as {policy: {}} that byte edits miss
+                let mut tree = match refcbor::parse(seed) {
+                    Ok(t) => t,
+                    Err(_) => return,
+                };
+                let total = tree.count_nodes();
+                let ni = ctx.choose_free(total.max(1));
+                let how = ctx.choose_free(2);
+                match tree.nth_mut(ni) {
+                    Some(node) => {
+                        let changed = match (&mut node.kind, how) {
+                            (Kind::Array(a), 0) if !a.is_empty() => {
+                                a.clear();
+                                true
+                            }
+                            (Kind::Array(a), _) if a.len() >= 2 => {
+                                a.pop();
+                                true
+                            }
+                            (Kind::Map(mm), 0) if !mm.is_empty() => {
+                                mm.clear();
+                                true
+                            }
+                            (Kind::Map(mm), _) if mm.len() >= 2 => {
+                                mm.pop();
+                                true
+                            }
+                            (Kind::Bytes(b), 0) | (Kind::Text(b), 0) if !b.is_empty() => {
+                                b.clear();
+                                node.chunks.clear();
+                                true
+                            }
+                            _ => false,
+                        };
+                        if !changed {
+                            return;
+                        }
+                        if !node.indefinite {
+                            node.width = 0;
+                        }
+                    }
+                    None => return,
+                }
+                m = refcbor::emit(&tree);
+                ctx.hit("well-formed-tree-edit");
             }
             _ => {
                 family = "duplicate-tail";
